@@ -41,7 +41,7 @@ func (e *Engine) runFunction(st *State, fn *ssa.Function, args []Value, free []V
 			e.funcsSeen[name] = true
 		}
 	}
-	fr := &Frame{fn: fn, info: e.info(fn), regs: map[ssa.Value]Value{}, block: fn.Blocks[0], depth: depth}
+	fr := &Frame{fn: fn, info: e.info(fn), regs: map[ssa.Value]Value{}, block: fn.Blocks[0], depth: depth, entryNext: st.next}
 	for i, p := range fn.Params {
 		if i < len(args) {
 			fr.regs[p] = args[i]
@@ -62,10 +62,13 @@ func (e *Engine) runFunction(st *State, fn *ssa.Function, args []Value, free []V
 			e.execBlock(it.st, it.fr, 0, &q, &exits)
 		}
 	}
-	return e.mergeExits(exits)
+	return e.mergeExits(exits, fr.entryNext)
 }
 
 func (e *Engine) mergeGroup(group []item) []item {
+	for _, it := range group {
+		e.canonItem(it)
+	}
 	var out []item
 	for _, it := range group {
 		merged := false
@@ -77,15 +80,22 @@ func (e *Engine) mergeGroup(group []item) []item {
 			}
 		}
 		if !merged {
+			if e.opt.MergeDebug && len(out) > 0 {
+				fmt.Printf("NOMERGE %s block %d: %s\n", it.fr.fn.Name(), it.fr.block.Index, e.whyNoMerge(out[0], it))
+			}
 			out = append(out, it)
 		}
 	}
 	return out
 }
 
-func (e *Engine) mergeExits(exits []exit) []exit {
+func (e *Engine) mergeExits(exits []exit, base ObjID) []exit {
 	if len(exits) < 2 || e.opt.NoMerge {
 		return exits
+	}
+	for i := range exits {
+		out := e.canonicalise(exits[i].st, base, []Value{exits[i].val})
+		exits[i].val = out[0]
 	}
 	var out []exit
 	for _, x := range exits {
@@ -391,6 +401,22 @@ func (e *Engine) finish(st *State, fr *Frame, kind int, val Value, pmsg string, 
 func (e *Engine) panicExit(st *State, fr *Frame, msg string, pos token.Pos, exits *[]exit) {
 	e.reportPanic(st, e.tc.True, msg, pos)
 	e.finish(st, fr, exitPanic, nil, msg, exits)
+}
+
+// needNonNil: dereferencing p requires it to be non-nil (a panic obligation when nil-ness is symbolic).
+func (e *Engine) needNonNil(st *State, fr *Frame, p PtrV, pos token.Pos, exits *[]exit) (PtrV, bool) {
+	if p.Obj == 0 {
+		e.panicExit(st, fr, "nil pointer dereference", pos, exits)
+		return p, false
+	}
+	if p.NilIf != nil {
+		if !e.mustHold(st, e.tc.Not(p.NilIf), "nil pointer dereference", pos) {
+			e.finish(st, fr, exitPanic, nil, "nil pointer dereference", exits)
+			return p, false
+		}
+		p.NilIf = nil
+	}
+	return p, true
 }
 
 // obligation: cond must hold; if its negation is feasible a panic finding is
@@ -769,8 +795,8 @@ func (e *Engine) step(st *State, fr *Frame, ins ssa.Instruction, idx int, q *pqu
 		if !ok {
 			panic(unsupported(fmt.Sprintf("fieldaddr of %T (%s)", e.get(fr, x.X), x.X.Type())))
 		}
-		if p.IsNil() {
-			e.panicExit(st, fr, "nil pointer dereference", x.Pos(), exits)
+		p, okp := e.needNonNil(st, fr, p, x.Pos(), exits)
+		if !okp {
 			return false
 		}
 		fr.regs[x] = PtrV{Obj: p.Obj, Path: appendPath(p.Path, PathElem{I: x.Field})}
@@ -864,7 +890,17 @@ func (e *Engine) step(st *State, fr *Frame, ins ssa.Instruction, idx int, q *pqu
 			return false
 		}
 		if sl.Off != 0 || n != len(e.getPath(st, e.obj(st, sl.Obj), sl.Path).(ArrayV).E) {
-			panic(unsupported("slice-to-array-pointer of a sub-slice"))
+			// a window into a larger backing array: modelled as a read-only copy (the array
+			// conversion [N]T(s) compiles to this followed by a load); stores through it are unsupported
+			arr := e.getPath(st, e.obj(st, sl.Obj), sl.Path).(ArrayV)
+			cp := append([]Value{}, arr.E[sl.Off:sl.Off+n]...)
+			id := e.alloc(st, ArrayV{E: cp})
+			if st.views == nil {
+				st.views = map[ObjID]bool{}
+			}
+			st.views[id] = true
+			fr.regs[x] = PtrV{Obj: id}
+			break
 		}
 		fr.regs[x] = PtrV{Obj: sl.Obj, Path: sl.Path}
 	case *ssa.Store:
@@ -872,8 +908,8 @@ func (e *Engine) step(st *State, fr *Frame, ins ssa.Instruction, idx int, q *pqu
 		if !ok {
 			panic(unsupported(fmt.Sprintf("store through %T", e.get(fr, x.Addr))))
 		}
-		if p.IsNil() {
-			e.panicExit(st, fr, "nil pointer dereference (store)", x.Pos(), exits)
+		p, okp := e.needNonNil(st, fr, p, x.Pos(), exits)
+		if !okp {
 			return false
 		}
 		e.store(st, p, e.get(fr, x.Val))
